@@ -704,3 +704,117 @@ def callsite_config_agreement(ctx, rid, callee, params, what=""):
                 shown = "the default" if o == "<default>" else ("an expression that is not a configuration key: " + short(arg, 40) if o is None else ".".join(o))
                 ctx.bad(rid, c, f"{q}: {callee} is called with {p} = {shown}, while another call site passes {'.'.join(ref) if ref else 'something else'}: the same path gets different weights depending on where it is (re)computed{what}",
                         construct=f"{callee}({p}=...) in {q}")
+
+
+
+def restart_preserves_settings(ctx, rid, what=""):
+    """On the restart path of setup_config (input with a [current] section) the persisted run
+    settings are not rewritten: every store into the configuration outside `current` is either
+    in the fresh-start branch, or idempotent (`cfg[k] = cfg.get(k, default)`), or guarded by a
+    test of that key's absence."""
+    from ..cfg import cfg_of
+    from ..loader import AnalysisError
+    from ..util import SETUP
+    f = ctx.tree.func(SETUP, "setup_config")
+    fl = flow_of(f)
+    cfg = fl.cfg
+    # the restart test
+    rt = None
+    for n in walk_local(f):
+        if isinstance(n, ast.If) and isinstance(n.test, ast.Compare) and isinstance(n.test.left, ast.Constant) and n.test.left.value == "current" and isinstance(n.test.ops[0], ast.In):
+            rt = n
+    if rt is None:
+        raise AnalysisError(f"{rid}: `if \"current\" in config` not found in setup_config")
+    fresh = {id(x) for st in rt.orelse for x in ast.walk(st)}
+    env = {}
+    for n in walk_local(f):
+        if isinstance(n, ast.Assign) and len(n.targets) == 1 and isinstance(n.targets[0], ast.Name):
+            c = _cfg_chain(n.value, env)
+            if c:
+                env[n.targets[0].id] = c
+    cnt = 0
+    for st in walk_local(f):
+        if not isinstance(st, ast.Assign) or id(st) in fresh:
+            continue
+        for t in st.targets:
+            if not isinstance(t, ast.Subscript):
+                continue
+            chain = _cfg_chain(t, env)
+            if chain is None:
+                # element store below a config key: cfg[...]["k"][0] = ...
+                b = t
+                while isinstance(b, ast.Subscript) and _cfg_chain(b, env) is None:
+                    b = b.value
+                chain = _cfg_chain(b, env) if isinstance(b, ast.Subscript) else None
+            if not chain:
+                continue
+            cnt += 1
+            if chain[0] == "current":
+                ctx.ok(rid, st, "restart path: store under [current] (run state, not a setting)", nontrivial=False)
+                continue
+            key = chain[-1]
+            # idempotent default
+            vchain = _cfg_chain(st.value, env)
+            srcs = []
+            if isinstance(st.value, ast.Name):
+                for d, _ in fl.rd(st.value.id, cfg.node_of(st)):
+                    if isinstance(getattr(d, "value", None), ast.AST):
+                        srcs.append(d.value)
+            idem = (vchain is not None and vchain == chain) or any(_cfg_chain(v, env) == chain for v in srcs)
+            # guard on the key's absence
+            guarded = False
+            for e, truth, bn in cfg.guards(cfg.node_of(st)):
+                txt = ast.unparse(e)
+                names = [x.id for x in ast.walk(e) if isinstance(x, ast.Name)]
+                exprs = [txt]
+                for nm in names:
+                    for d, _ in fl.rd(nm, bn):
+                        if isinstance(getattr(d, "value", None), ast.AST):
+                            exprs.append(ast.unparse(d.value))
+                if any(repr(key).replace("'", '"') in x.replace("'", '"') for x in exprs):
+                    guarded = True
+            if idem or guarded:
+                ctx.ok(rid, st, f"restart path: `{short(st, 50)}` only fills in a default for a missing {key!r}")
+            else:
+                ctx.bad(rid, st, f"setup_config overwrites the persisted setting [{'.'.join(chain)}] when it restarts from restart.toml: the continued run does not use what the interrupted run used{what}",
+                        construct=f"restart path rewrites {'.'.join(chain)}")
+    if cnt < 4:
+        raise AnalysisError(f"{rid}: only {cnt} configuration stores found on the restart path of setup_config (expected >= 4)")
+
+
+
+def whole_busy_set(ctx, rid, what=""):
+    """Every membership test against the busy paths consults the whole set returned by
+    locked_paths(): the collection on the right of `in` / `not in` is value-equal to the call
+    itself, not a slice, filter or copy with elements removed."""
+    from ..loader import FUNC, AnalysisError
+    from ..util import REPEX
+    cls = ctx.tree.cls(REPEX, "REPEX_state")
+    n = 0
+    for f in [s_ for s_ in cls.body if isinstance(s_, FUNC)]:
+        fl = None
+        for c in [x for x in walk_local(f) if isinstance(x, ast.Compare) and len(x.ops) == 1 and isinstance(x.ops[0], (ast.In, ast.NotIn))]:
+            coll = c.comparators[0]
+            fl = fl or flow_of(f)
+            try:
+                at = fl.cfg.node_of(c)
+            except Exception:
+                continue
+            cands = [coll] if not isinstance(coll, ast.Name) else []
+            if isinstance(coll, ast.Name):
+                for d, _ in fl.rd(coll.id, at):
+                    if isinstance(getattr(d, "value", None), ast.AST):
+                        cands.append(d.value)
+            rel = [v for v in cands if any(isinstance(x, ast.Call) and last_name(x) == "locked_paths" for x in ast.walk(v))]
+            if not rel:
+                continue
+            n += 1
+            q = getattr(f, "_fq", f.name)
+            for v in rel:
+                if isinstance(v, ast.Call) and last_name(v) == "locked_paths" and not v.args:
+                    ctx.ok(rid, c, f"{q}: `{short(c, 40)}` consults the whole busy set")
+                else:
+                    ctx.bad(rid, c, f"{q}: the busy-path test `{short(c, 40)}` consults `{short(v, 40)}`, not the whole result of locked_paths(): a path held by an in-flight job is treated as idle{what}",
+                            construct=f"{q}: busy set reduced to {short(v, 40)}")
+    if n < 2:
+        raise AnalysisError(f"{rid}: only {n} membership tests against locked_paths() found (expected >= 2: sort_trajstate, treat_output)")
